@@ -15,7 +15,7 @@ func init() {
 		Explanation: "Decides structural clauses of C04: (R-C04-1) the only file-mutating call in package db is one atomicfile.WriteFile(kv.path, data, owner-only const mode); " +
 			"(R-C04-2) in the atomicfile.WriteFile the module graph resolves to, the rename into place is edge-dominated, in this order, by the nil edges of CreateTemp in filepath.Dir(filename), Write(data), Sync and Close of that temporary, the live file is never opened for writing, and error paths remove the temporary; " +
 			"(R-C04-3) after a failed save every forward write of the mutator is compensated by its inverse (same map and key, previous value, arithmetic inverse) on every path to the return, which carries a non-nil error; " +
-			"(R-C04-4) the write generation is bumped only on the nil edge of the save's error; (R-C04-5) database creation returns its save error and no kv.",
+			"(R-C04-4) the write generation is bumped only on the nil edge of the save's error; (R-C04-5) database creation returns its save error and no kv. (R-C04-9) the bytes written are the document serialised for this very save, not a buffer kept in the store between saves (C03's content rule); (R-C04-10) once the stored state has decoded, open cannot fail any more: no acceptance test stands between what save wrote and its use.",
 		NotDecided:  "POSIX semantics of rename/fsync and real kill points (trusted); partial writes inside the os package.",
 		Trusted:     append([]string{"rename(2) within one directory is atomic; fsync makes the temporary durable", "os.File.Write returns an error on short writes"}, commonTrusted...),
 		Assumptions: []string{"calls to functions outside the module do not mutate package db's private state"},
@@ -40,6 +40,10 @@ func runC04(c *eng.Ctx, tier string) {
 	// R-C04-8: "later calls succeed normally": a call reports success only after
 	// a save that really wrote (C03's rule: no success path around the write)
 	includeOnly(c, "R-C04-8", func(sc *eng.Ctx) { c03SaveBeforeSuccess(sc, k) }, "R-C03-1")
+	// R-C04-9: what is written is the document serialised for this save (C03's
+	// content rule): nothing left over from an earlier, possibly failed, save
+	include(c, "R-C04-9", func(sc *eng.Ctx) { c03SaveContentRule(sc, k, "R-C03-2") })
+	c04OpenAcceptsWhatSaveWrote(c)
 }
 
 // R-C04-7: the replacement of the file is the commit point of a save: once
@@ -486,4 +490,93 @@ func c04Create(c *eng.Ctx, k *kvAnalysis) {
 	if n == 0 {
 		c.Undecided("R-C04-5", nil, 0, "database creation", "no constructor calling save found")
 	}
+}
+
+// c04OpenAcceptsWhatSaveWrote: R-C04-10.  "The file ... opens successfully":
+// every state a save can write is accepted on open.  Open decrypts and decodes
+// and adds no acceptance test of its own: once the decrypted document has been
+// decoded into the persisted form (nil error of that json.Unmarshal) no error
+// return is reachable in the reading function.  (A consistency check there
+// would have to hold for every state the operations can legitimately produce
+// -- e.g. a latest version number whose version was deleted.)
+func c04OpenAcceptsWhatSaveWrote(c *eng.Ctx) {
+	p := c.P
+	n := 0
+	for f := range dbReaders(c) {
+		ei := errResultIndex(f)
+		if ei < 0 {
+			continue
+		}
+		// (the decoding may live in a helper of the reading function)
+		eng.InstrsDeep(f, func(g *ssa.Function, in ssa.Instruction) {
+			call, ok := in.(*ssa.Call)
+			if !ok || !eng.CalleeIs(&call.Call, "encoding/json", "Unmarshal") {
+				return
+			}
+			tgt := call.Call.Args[1]
+			if mi, isMI := tgt.(*ssa.MakeInterface); isMI {
+				tgt = mi.X
+			}
+			if !eng.IsNamed(eng.Deref(tgt.Type()), "db", dbTypeName(p, "persist")) {
+				return
+			}
+			gi := errResultIndex(g)
+			if gi < 0 {
+				return
+			}
+			n++
+			ev := saveErr(call)
+			fOuter := f
+			f := g
+			isErrRet := func(x ssa.Instruction) bool {
+				r, isR := x.(*ssa.Return)
+				if !isR {
+					return false
+				}
+				ri := errResultIndex(r.Parent())
+				return ri >= 0 && ri < len(eng.RetVals(r)) && !eng.IsNilConst(eng.Origin(eng.RetVals(r)[ri])) && !forwardsNil(r, ri, call)
+			}
+			hit, path := eng.Search(g, call, eng.AssumeErr(ev, true), nil, isErrRet)
+			// ... and, when the decoding lies in a helper, from the helper's
+			// successful return on in the reading function
+			if hit == nil && g != fOuter {
+				if site, _ := eng.UniqueCallSite(g).(*ssa.Call); site != nil && site.Parent() == fOuter {
+					hit, path = eng.Search(fOuter, site, eng.AssumeErr(saveErr(site), true), nil, isErrRet)
+				}
+			}
+			_ = gi
+			c.Check(hit == nil, "R-C04-10", f, call.Pos(), "after the stored state decoded in "+eng.FName(f), "open succeeds (no further acceptance test between decoding and use: whatever save wrote is readable)", func() string {
+				if hit == nil {
+					return ""
+				}
+				return "an error return is still reachable at " + p.Pos(hit.Pos()) + ": " + p.PathStr(path)
+			}())
+		})
+	}
+	if n == 0 {
+		c.Undecided("R-C04-10", nil, 0, "decoding of the persisted state on the open path", "not found")
+	}
+}
+
+// forwardsNil: the error returned by r is the error result of a helper call
+// whose nil edge we are on (`return decodeKV(...)`: the caller returns what
+// the helper returned, which is nil on the path followed).
+func forwardsNil(r *ssa.Return, ri int, decode *ssa.Call) bool {
+	call, idx := eng.TupleCall(eng.RetVals(r)[ri])
+	if call == nil {
+		return false
+	}
+	h := eng.Callee(&call.Call)
+	if !eng.IsHelper(r.Parent(), h) || !(idx == errResultIndex(h) || (idx < 0 && errResultIndex(h) == 0)) {
+		return false
+	}
+	// only the helper the decoding itself lies in (we arrive here through its
+	// successful return); the error of any other helper is a new failure
+	inside := false
+	eng.InstrsDeep(h, func(_ *ssa.Function, in ssa.Instruction) {
+		if in == ssa.Instruction(decode) {
+			inside = true
+		}
+	})
+	return inside
 }
